@@ -145,7 +145,7 @@ def plan(tier, seed):
                             P.append({'fam': fam, 'changes': c})
                 # overpressure
                 for op in ('100', '100.1', '150', '1000'):
-                    for rate in ('0.1', '5', '100'):
+                    for rate in ('0.1', '5', '100', '3', '40', '62.5'):
                         for sp_ in (split('1000', '0'), split('1000', '10'), split('2500', '1000')):
                             for hp in ({}, {'Reservoir Hydrostatic Pressure': '25000'}):
                                 if tuple(s) != (5, 3, 2) and (hp or rate != '5'):
@@ -162,7 +162,7 @@ def run(tier, seed, budget=None):
         sys.modules[__name__], PID, tier, seed, budget,
         rule=('end-use/plant pairs (pumped ORC and self-flowing flash, heat plants, cogeneration) x shapes x hydraulic model '
               '{PI/II with PI,II in {0.1,10,10000}; impedance {1e-4,0.1,1e4}} x diameter/flow/pressure deviations; overpressure '
-              '{100,100.1,150,1000 %} x depletion {0.1,5,100 %/yr} x split injection reservoir {inflation 0,10,1000 kPa/yr} x '
+              '{100,100.1,150,1000 %} x depletion {0.1,3,5,40,62.5,100 %/yr} (100/rate integer and non-integer) x split injection reservoir {inflation 0,10,1000 kPa/yr} x '
               'user/built-in hydrostatic pressure; at every hook the real friction routine is swept over 8 ordered diameters x 7 flows '
               '(laminar and turbulent). Non-trivial = some pumping power > 0'),
         assumptions=['hydrostatic pressure under the built-in correlation is inferred as initial pressure / overpressure fraction',
